@@ -45,7 +45,7 @@ THEOREMS = {
     "C10_evaluate_labels": "whenever evaluate_model's pipeline succeeds on holders that respect their declared sizes, column k is labelled with the chain its sample came from (chain-major)",
     "C10_evaluate_complete": "on complete non-empty chains saved to files the pipeline succeeds with exactly that labelling",
     "C10_evaluate_partial_refused": "a partially filled chain makes the pipeline refuse (get_theta out of range) instead of mislabelling",
-    "C10_chain_ids_partial_misaligned": "witness: chain_ids alone (declared sizes) is NOT aligned with the concatenation when a holder is partial",
+    "C10_chain_ids_aligned_partial_refuted": "witness: chain_ids alone (declared sizes) is NOT aligned with the concatenation when a holder is partial",
     "C10_add_beyond_declared_refused": "add_theta on a holder already holding >= declared samples is Err",
     "C10_add_within_declared": "add_theta below the declared size appends at the end",
     "C10_get_out_of_range_refused": "get_theta i is Err for i < 0 or i >= #samples",
